@@ -211,6 +211,58 @@ def pick_chain(r, maxlen, small_only=False):
     return [r.choice(pool) for _ in range(k)]
 
 
+def _body(F, shift=0):
+    """Constraints of F as a list, literals moved down by `shift`."""
+    mv = lambda l: l - shift if l > 0 else l + shift
+    if hasattr(F, "_constraints"):
+        return [tuple((c, mv(l)) for c, l in con[:-2]) + (con[-2], con[-1]) for con in F]
+    return [tuple(mv(l) for l in c) for c in F]
+
+
+def offset_invariance(ctx, r, where, fn, K, F):
+    """The same family built into a formula class of the user's whose constructor already owns three variables (and a
+    clause on the first): the family's own variables come after them, so its constraints are those of the plain
+    formula moved up by three, and the declared count grows by three."""
+    from ..ducks import reserving_class
+    if len(F) > 60000 or where.startswith("handbuilt"):
+        return                      # (the hand-built entries set an absolute variable count themselves)
+    seed = r.randint(0, 10 ** 6)
+    random.seed(seed)
+    st, A = ctx.call(fn, K)
+    if st == "exc" or _body(A) != _body(F) or A.number_of_variables() != F.number_of_variables():
+        ctx.count("offset_invariance_skipped_entry_not_repeatable")
+        return
+    R = reserving_class(K, 3)
+    random.seed(seed)
+    before = snapshot_events()
+    with alloc.watch() as mon:
+        st, B = ctx.call(fn, R)
+    account(ctx, before)
+    ctx.count("families_in_a_class_with_reserved_variables")
+    w = "%s with a formula class that owns 3 variables before the family starts" % where
+    if st == "exc":
+        # a family may decline such a class (CPLSFormula asserts its total counts): C10 speaks of the formulas returned
+        ctx.count("reserved_class_declined:%s" % type(B).__name__)
+        return
+    report(ctx, w, mon, B)
+    if B.number_of_variables() == F.number_of_variables() and _body(B)[1:] == _body(F):
+        # families that address their variables by number (update_variable_number(n), as the random ones do) simply
+        # take the first n variables of whatever class they are given: nothing to compare
+        ctx.count("family_addresses_variables_by_number")
+        return
+    if B.number_of_variables() != F.number_of_variables() + 3:
+        ctx.violation("count:reserved-variables", "%s declares %d variables, the plain formula %d" % (w, B.number_of_variables(), F.number_of_variables()))
+        return
+    body = _body(B, 3)
+    own = [(1 + 3,)] if not hasattr(B, "_constraints") else None
+    rest = body[1:] if len(body) == len(F) + 1 else body
+    if rest != _body(F):
+        i = next((i for i, (x, y) in enumerate(zip(rest, _body(F))) if x != y), min(len(rest), len(F)))
+        ctx.violation("reserved:family-uses-the-callers-variables", "%s: constraint #%d is %r (moved down by 3), the plain formula has %r"
+                      % (w, i, rest[i:i + 1], _body(F)[i:i + 1]))
+    ctx.judged(("reserved", where), nontrivial=len(F) > 0, sample={"entry": w, "variables": B.number_of_variables()})
+
+
 def case_library(ctx, rseed, lo, hi):
     from cnfgen.formula.cnf import CNF
     from cnfgen.formula.opb import OPB
@@ -239,6 +291,7 @@ def case_library(ctx, rseed, lo, hi):
                                   % (where, F.number_of_variables(), documented))
             ctx.judged(("lib", label, cname), nontrivial=len(F) > 0,
                        sample={"entry": where, "variables": F.number_of_variables(), "clauses": len(F)})
+            offset_invariance(ctx, r, where, fn, K, F)
             if cname != "CNF" or F.number_of_variables() > 150:
                 continue
             # transformation chains on the CNF
@@ -384,8 +437,18 @@ def case_interleave(ctx, rseed, count):
                 n = F.number_of_variables()
                 op = r.choice(["clause", "clause", "raise", "variable", "block", "comb", "perm", "words", "bip", "graph",
                                "digraph", "mapping", "binmap", "constraint", "builder", "builder", "labels", "peek",
-                               "shared-graph", "shared-graph", "edit-graph", "edit-graph"])
+                               "shared-graph", "shared-graph", "edit-graph", "edit-graph", "deepcopy", "pickle"])
                 hist.append(op)
+                if op in ("deepcopy", "pickle"):
+                    import copy
+                    import pickle
+                    st, C = ctx.call(copy.deepcopy, F) if op == "deepcopy" else ctx.call(lambda: pickle.loads(pickle.dumps(F)))
+                    if st == "ok":
+                        F = C                      # the history goes on with the copy
+                        ctx.count("histories_continued_on_a_copy")
+                    else:
+                        hist[-1] = op + "(unsupported)"
+                    continue
                 if op == "labels":
                     st, labs = ctx.call(lambda: list(F.all_variable_labels()))
                     if st == "ok" and len(labs) != n:
